@@ -251,6 +251,9 @@ func (e *Explorer) runPath(in *Interp, it workItem) {
 				default:
 					outcome = "engine-crash"
 					msg = fmt.Sprintf("%v\n%s", r, debug.Stack())
+					if os.Getenv("GOSYM_CRASH") != "" {
+						fmt.Fprintln(os.Stderr, "ENGINE-CRASH", msg)
+					}
 				}
 			}
 		}()
